@@ -11,6 +11,10 @@ open Cell2v.Driver Cell2v.Codec
 
 structure St where
   dict : List (Bytes × Nat) := []
+  /-- results of the last `winCap` calls on the long-lived packet decoder (`pdecs`), newest first -/
+  win : List (Except PErr (List Packet)) := []
+  /-- Data-packet body staged by `sess` (with the inflate table of the op), consumed by `sgo` -/
+  pend : Option (Bytes × List (Nat × Bytes)) := none
 
 def mkEnv (s : St) (compress : Bool) (defl : Bytes) (infl : List (Nat × Bytes)) : Env :=
   { routes := Dict.routes s.dict
@@ -51,6 +55,26 @@ def parsePackets (ws : List String) : List Packet :=
 def showPackets (ps : List Packet) : String :=
   "ok" ++ String.join (ps.map fun p => s!" p={p.typ}:{hexOfBytes p.body}")
 
+def showDec : Except PErr (List Packet) → String
+  | .ok ps => showPackets ps
+  | .error _ => "err"
+
+def showSess : SessOut → String
+  | .delivered id r d => s!"delivered id={id} route={hexOfBytes r} data={hexOfBytes d}"
+  | .closed => "closed"
+  | .crash => "panic"
+
+/-- `e=<hexkey>:<code>` tokens of a multi-entry `SetDictionary` call -/
+def parseEntries (ws : List String) : List (Bytes × Nat) :=
+  ws.filterMap fun w =>
+    if w.startsWith "e=" then
+      match ((w.drop 2).toString).splitOn ":" with
+      | [h, c] => match bytesOfHex h, c.toNat? with
+        | some b, some n => some (b, n)
+        | _, _ => none
+      | _ => none
+    else none
+
 def parseMsgFields (ws : List String) : Option (Nat × Nat × Bytes × Bytes × Bool) := do
   let t ← kvNat ws "typ"
   let id ← kvNat ws "id"
@@ -60,16 +84,53 @@ def parseMsgFields (ws : List String) : Option (Nat × Nat × Bytes × Bytes × 
   pure (t, id, route, data, e == 1)
 
 def step (s : St) (line : String) : St × String :=
+  -- replay of a run in which the process died: the harness runs the staged session there (= `sgo`)
+  let line := if line.startsWith "<harness-exit" && s.pend.isSome then "sgo" else line
   let ws := words line
   match ws.head? with
   | some "dict" =>
     match kvHex ws "route", kvNat ws "code" with
     | some r, some c =>
-      -- SetDictionary with a single-entry map (the harness passes routes without surrounding blanks: trim = id)
-      match setDictionary id s.dict [(r, c)] with
+      -- SetDictionary with a single-entry map; keys may carry surrounding blanks (space, \t, \n, \r)
+      match setDictionary trimWs s.dict [(r, c)] with
       | (d', true) => ({ s with dict := d' }, "ok")
       | (_, false) => (s, "dup")
     | _, _ => (s, "bad-op")
+  | some "dictm" =>
+    -- one SetDictionary call with several entries; the harness issues these without duplicates, so the
+    -- result does not depend on Go's map iteration order (`SetDictionary_order_independent`)
+    match setDictionary trimWs s.dict (parseEntries ws) with
+    | (d', true) => ({ s with dict := d' }, "ok")
+    | (d', false) => ({ s with dict := d' }, "dup")
+  | some "dictget" =>
+    -- GetDictionary(), sorted by code
+    let es := s.dict.mergeSort (fun a b => a.2 ≤ b.2)
+    (s, "ok" ++ String.join (es.map fun e => s!" {hexOfBytes e.1}:{e.2}"))
+  | some "pdec2" =>
+    -- Decode a, then b on the SAME decoder, then read a's result again: results are values
+    match kvHex ws "a", kvHex ws "b" with
+    | some a, some b =>
+      let ra := showDec (decodePackets a)
+      (s, ra ++ " | " ++ showDec (decodePackets b) ++ " | " ++ ra)
+    | _, _ => (s, "bad-op")
+  | some "pdecs" =>
+    match kvHex ws "data" with
+    | some bs =>
+      let (w', r) := decodeShared s.win bs
+      ({ s with win := w' }, showDec r)
+    | none => (s, "bad-op")
+  | some "pchk" =>
+    match kvNat ws "k" with
+    | some k => (s, match s.win[k]? with | some r => showDec r | none => "none")
+    | none => (s, "bad-op")
+  | some "sess" =>
+    match kvHex ws "data" with
+    | some bs => ({ s with pend := some (bs, parseInfl ws) }, "working")
+    | none => (s, "bad-op")
+  | some "sgo" =>
+    match s.pend with
+    | some (bs, infl) => ({ s with pend := none }, showSess (sessionData (mkEnv s false [] infl) bs))
+    | none => (s, "none")
   | some "enc" | some "rt" =>
     match parseMsgFields ws, kvNat ws "comp", kvHex ws "defl" with
     | some (t, id, route, data, e), some comp, some defl =>
@@ -113,41 +174,74 @@ def step (s : St) (line : String) : St × String :=
 
 def isPanic (obs : String) : Bool := (obs.splitOn "panic").length > 1 || (obs.splitOn "timeout").length > 1
 
-def specLine (line : String) : String :=
+structure SpecSt where
+  /-- what the implementation itself answered to its last `winCap` `pdecs` calls, newest first -/
+  win : List String := []
+  /-- the staged session op, if `sgo` has not run yet -/
+  pend : Option String := none
+
+def contains (s sub : String) : Bool := (s.splitOn sub).length > 1
+
+def specStep (st : SpecSt) (line : String) : SpecSt × String :=
+  -- split at the FIRST tab (the stack trace in a `<harness-exit>` observation contains tabs)
   match line.splitOn "\t" with
-  | [op, obs] =>
+  | op :: o1 :: orest =>
+    let obs := "\t".intercalate (o1 :: orest)
     let ws := words op
-    if isPanic obs then
+    -- the harness process itself died: a panic outside every recover (reader goroutine of a session),
+    -- a fatal runtime error or a hang; the op it died in is the one after the last recorded op
+    if op.startsWith "<harness-exit" && isPanic obs then
+      (st, "VIOLATION C06/server-crash process died (last staged session: " ++ (st.pend.getD "none") ++ ") " ++ op)
+    else if isPanic obs then
       match ws.head? with
-      | some "dec" | some "rt" => "VIOLATION C06/message-decode-crash " ++ op
-      | some "pdec" | some "prt" => "VIOLATION C06/packet-decode-crash " ++ op
-      | _ => "VIOLATION C06/encode-crash " ++ op
+      | some "sess" | some "sgo" =>
+        ({ st with pend := none }, "VIOLATION C06/server-crash " ++ (st.pend.getD op) ++ " got " ++ obs)
+      | some "dec" | some "rt" => (st, "VIOLATION C06/message-decode-crash " ++ op)
+      | some "pdec" | some "prt" | some "pdec2" | some "pdecs" | some "pchk" => (st, "VIOLATION C06/packet-decode-crash " ++ op)
+      | _ => (st, "VIOLATION C06/encode-crash " ++ op)
     else match ws.head? with
     | some "rt" =>
       match parseMsgFields ws with
       | some (t, id, route, data, e) =>
         match MType.ofCode t with
-        | none => "ok"
+        | none => (st, "ok")
         | some ty =>
           if id < 2 ^ 64 ∧ route.length ≤ 255 then
             let want := " | ok " ++ showMsg (carried ⟨ty, id, route, data, e⟩)
-            if obs.endsWith want then "ok" else "VIOLATION C06/message-roundtrip " ++ op ++ " got " ++ obs
-          else "ok"
-      | none => "bad-op"
+            (st, if obs.endsWith want then "ok" else "VIOLATION C06/message-roundtrip " ++ op ++ " got " ++ obs)
+          else (st, "ok")
+      | none => (st, "bad-op")
     | some "plimit" =>
-      if (obs.splitOn "rt=bad").length > 1 then "VIOLATION C06/packet-roundtrip " ++ op ++ " got " ++ obs else "ok"
+      (st, if contains obs "rt=bad" then "VIOLATION C06/packet-roundtrip " ++ op ++ " got " ++ obs else "ok")
     | some "prt" =>
       let ps := parsePackets ws
       if ps.all (fun p => 1 ≤ p.typ ∧ p.typ ≤ 5 ∧ p.body.length < 2 ^ 24) then
-        if obs == showPackets ps then "ok" else "VIOLATION C06/packet-roundtrip " ++ op ++ " got " ++ obs
-      else "ok"
-    | _ => "ok"
-  | _ => "bad-line"
+        (st, if obs == showPackets ps then "ok" else "VIOLATION C06/packet-roundtrip " ++ op ++ " got " ++ obs)
+      else (st, "ok")
+    | some "pdec2" =>
+      -- "<a's result when returned> | <b's result> | <a's result read again after b was decoded>"
+      match obs.splitOn " | " with
+      | [r1, _, r1'] =>
+        (st, if r1 == r1' then "ok" else "VIOLATION C06/decode-result-aliased " ++ op ++ " got " ++ obs)
+      | _ => (st, "VIOLATION C06/decode-result-aliased " ++ op ++ " malformed observation " ++ obs)
+    | some "pdecs" => ({ st with win := winPush st.win obs }, "ok")
+    | some "pchk" =>
+      match kvNat ws "k" with
+      | some k =>
+        match st.win[k]? with
+        | some r => (st, if r == obs then "ok" else
+            "VIOLATION C06/decode-result-aliased " ++ op ++ " returned earlier: " ++ r ++ " reads now: " ++ obs)
+        | none => (st, "ok")
+      | none => (st, "bad-op")
+    | some "sess" => ({ st with pend := some op }, "ok")
+    | some "sgo" => ({ st with pend := none }, "ok")
+    | _ => (st, "ok")
+  | _ => (st, "bad-line")
 
 end Cell2v.Driver.C06
 
 open Cell2v.Driver in
 def main (args : List String) : IO Unit :=
   match args with
-  | ["spec"] => runLoop (fun (_ : Unit) l => ((), Cell2v.Driver.C06.specLine l)) ()
+  | ["spec"] => runLoop Cell2v.Driver.C06.specStep {}
   | _ => runLoop Cell2v.Driver.C06.step {}
